@@ -528,11 +528,16 @@ pub fn parse_rb_any(t: &mut Toks) -> Option<Rb> {
             }
             Some(Rb::Agg(Rc::new(RbSlice(v))))
         }
-        "rbox" => {
-            let r = parse_rb(t)?;
-            let b: Box<DynRB> = Box::new(r);
-            Some(Rb::Plain(Rc::new(b)))
-        }
+        "rbox" => match parse_rb_any(t)? {
+            Rb::Plain(r) => {
+                let b: Box<DynRB> = Box::new(r);
+                Some(Rb::Plain(Rc::new(b)))
+            }
+            Rb::Agg(a) => {
+                let b: Box<Rc<dyn AggregateRequestBound>> = Box::new(a);
+                Some(Rb::Agg(Rc::new(b)))
+            }
+        },
         _ => None,
     }
 }
